@@ -21,7 +21,7 @@ go1.26 test -count=1 -vet=off -timeout 25m $pkgs 2>&1 | tail -5
 place=$(python3 - <<PY
 import json,os
 m=json.load(open('$src/meta.json'))
-import re; print(re.sub(r'\\s+\\((with|from|after) .*$','',m.get('demo_cmd','')))
+import re; print(re.sub(r'\\s+\\([^()]*\\)\\s*$','',m.get('demo_cmd','')))
 PY
 )
 for f in $(find $src/demo -type f \( -name "*.go" -o -name "*.sqlite" -o -name "*.json" -o -name "*.sh" \)); do
